@@ -15,6 +15,7 @@ from fractions import Fraction
 import numpy as np
 from .. import common
 from ..translator import py2lean
+from .. import corethm
 from ..common import enc, ask, call
 
 LEVEL = "proof"
@@ -25,7 +26,9 @@ RULE = ("landscapes built by the real classes from generated diagrams (1-7 bars;
         "sub-stream) as single / negated / difference / P-P / random linear combinations of 2-3 landscapes (exact and "
         "grid, 5-40 grid nodes), plus synthetic piecewise-linear functions with forced zeros and equal neighbours fed "
         "to _p_norm directly; every natural p in 1..20 and real p in [1,20]; a malformed stream (p<0, p=0, p=-1, "
-        "0<p<1, vertical segments, empty landscapes); non-trivial = the function has a sign-crossing or negative "
+        "0<p<1, vertical segments, empty landscapes); grid landscapes on which no bar is visible (bars shorter than a step: one zero "
+        "row); depths of C09's class that are not strictly increasing (repeated points, [[b,0],[b,0],[b,0]], single points); a "
+        "large-exponent stream (integer and real p up to 100, scales 2^-21..2^21); non-trivial = the function has a sign-crossing or negative "
         "segment or at least two depths; distinct by digest of (operation, p, critical pairs)")
 ASSUMPTIONS = ["critical pairs / grid values are finite floats (no NaN/inf inside a landscape)",
                "np.linspace(start, stop, num_steps) is passed to the model as data (its contract belongs to C08)",
@@ -33,7 +36,20 @@ ASSUMPTIONS = ["critical pairs / grid values are finite floats (no NaN/inf insid
                "segments add the first-order rounding bound of the code's slope*x+b recomputation (8 eps (|slope x|+|y|) "
                "on each end value); cases where that bound exceeds 1e-9 relative are counted as ill_conditioned",
                "real p: np.float64 ** float is C pow, as Float.pow in the model",
-               "stability stream: diagrams on which the C03 repeated-bar shortcut fires (known finding) are skipped and counted"]
+               "stability stream: evaluated on every case; a failure on diagrams on which the C03 repeated-bar shortcut fired is "
+               "attributed to the known finding (counted, KNOWN-FINDING line), any other failure is a violation",
+               "large exponents: p_norm is tested for integer and real p up to 100 at scales 2^-21..2^21; failures where "
+               "|p*log2(max|value|) + log2(width)| > 900 (M**p leaves the double range) are the known over/underflow finding"]
+TRUSTED = ["the compiled driver executable is trusted as compiled by Lean's compiler, not checked by the kernel",
+           "the guarded trace persim.landscapes.exact._VERIF_TRACE is used only to attribute a failing stability case to the known repeated-bar shortcut"]
+# theorems of Props/C10.lean that carry a clause of the property (closed forms of single branches, helpers, bridges between
+# guards, argument validation and the regression witnesses are excluded)
+CORE_THEOREMS = ["segment_integral", "pnorm_pow_eq_integral", "pnorm_eq_root", "pnorm_pow_nonneg", "sup_eq_max_abs", "supNormExact_eq",
+                 "supNormApprox_eq", "pnorm_homogeneous", "supNorm_homogeneous", "pnorm_self_sub_zero", "supNorm_self_sub_zero",
+                 "pnorm_triangle", "segment_integral_real", "pnorm_real_pow_eq_integral", "pNormMethod_real", "pnorm_real_homogeneous",
+                 "pnorm_real_triangle", "pnorm_pow_eq_integral_wf", "pnorm_real_pow_eq_integral_wf", "pNormMethod_real_wf",
+                 "supNormExact_eq_wf", "pnorm_triangle_wf", "pnorm_real_triangle_wf", "pnorm_homogeneous_wf", "landscape_stability",
+                 "landscape_sup_le_bottleneck"]
 TOL = 1e-9
 EPS = 2.220446049250313e-16
 
@@ -117,6 +133,32 @@ def gen_dgm(ctx, mode, scale, nmax=7, diag_p=0.0, nmin=1):
     return bars
 
 
+def short_bars(ctx, lo, hi, steps):
+    """a diagram whose bars are all shorter than a step of the grid [lo, hi] x steps: no bar is visible on the grid, the
+    grid landscape is the zero function with one zero row (/repo fix 357d745; before it: the string placeholder ['empty'],
+    on which sup_norm / p_norm / arithmetic raised)"""
+    r = ctx.rng
+    step = (hi - lo) / (steps - 1)
+    out = []
+    for _ in range(r.randint(1, 4)):
+        b = lo + r.randint(0, 4 * (steps - 1) - 3) * step / 4.0
+        out.append([b, b + r.choice([0.25, 0.5, 0.75]) * step])
+    return out
+
+
+def zero_function_check(A):
+    """the norms of a grid landscape on which no bar is visible: None if it behaves as the zero function, else what fails"""
+    for what, thunk in (("sup_norm()", lambda: A.sup_norm()), ("p_norm(2)", lambda: A.p_norm(2)), ("p_norm(1.5)", lambda: A.p_norm(1.5)),
+                        ("(A - A).sup_norm()", lambda: (A - A).sup_norm()), ("(2 * A).p_norm(3)", lambda: (2 * A).p_norm(3))):
+        try:
+            v = fl(quiet(thunk))
+        except Exception as e:
+            return "%s raised %s" % (what, type(e).__name__)
+        if v != 0.0:
+            return "%s = %r instead of 0" % (what, v)
+    return None
+
+
 def gen_family(ctx, k, diag_p=0.0):
     """k diagrams sharing coordinate mode and scale (so that their landscapes overlap and differences change sign)"""
     r = ctx.rng
@@ -182,6 +224,20 @@ def gen_synthetic(ctx):
             ys[0] = 0.0
             ys[-1] = 0.0
         out.append([[x, y] for x, y in zip(xs, ys)])
+    # depths of C09's class that are not strictly increasing / have fewer than two points: what a bar of zero length
+    # produces ([[b,0],[b,0],[b,0]]) and what the sum of two such depths is (the single point [[x,0]]); both are the zero function
+    u = r.random()
+    if u < 0.08:
+        b = base_coord(r, mode) * scale
+        out.insert(r.randint(0, len(out)), [[b, 0.0], [b, 0.0], [b, 0.0]])
+        ctx.count("synthetic:zero_length_bar_depth")
+    elif u < 0.16:
+        out.insert(r.randint(0, len(out)), [[base_coord(r, mode) * scale, 0.0]])
+        ctx.count("synthetic:single_point_depth")
+    elif u < 0.2 and len(out[0]) >= 3:
+        i = r.randrange(1, len(out[0]))
+        out[0].insert(i, list(out[0][i]))               # a repeated interior / last point: zero-width flat segment
+        ctx.count("synthetic:repeated_point")
     return out
 
 
@@ -271,6 +327,8 @@ def oracle_pow(p, cps):
     """sum over depths of the integral of |f|^p by adaptive quadrature on each segment (split at the root);
     independent of the code's closed form and of the model"""
     from scipy.integrate import quad
+    import warnings
+    warnings.filterwarnings("ignore", message=".*bad integrand behavior.*")
     tot = 0.0
     for l in cps:
         for (x0, y0), (x1, y1) in zip(l, l[1:]):
@@ -292,14 +350,15 @@ def oracle_pow(p, cps):
 
 def oracle_sup(cps):
     """largest absolute value of the interpolated functions, evaluated on breakpoints and 7 interior points per segment"""
-    best = 0.0
+    best = Fraction(0)
     for l in cps:
         for (x0, y0), (x1, y1) in zip(l, l[1:]):
-            for j in range(9):
-                best = max(best, abs(y0 + (y1 - y0) * j / 8.0))
+            f0, f1 = Fraction(y0), Fraction(y1)
+            for j in range(9):          # exact rationals: the end values are y0 and y1 themselves, no rounding
+                best = max(best, abs(f0 + (f1 - f0) * j / 8))
         if len(l) == 1:
-            best = max(best, abs(l[0][1]))
-    return best
+            best = max(best, abs(Fraction(l[0][1])))
+    return float(best)
 
 
 def oracle_disagrees(v, p, cps):
@@ -340,6 +399,7 @@ def pre_build(ctx):
 
 def run(ctx):
     py2lean.report_broken(ctx, PROP_FILES)
+    corethm.record(ctx, CORE_THEOREMS, ["PersimVerif/Props/C10.lean"])
     r = ctx.rng
     ex, ap, aux = _mods()
     ctx.extra["source_digest"] = {
@@ -419,9 +479,27 @@ def run(ctx):
         if r.random() < 0.3:                       # grid strictly inside / outside the support
             lo, hi = lo + 0.25 * (hi - lo) * r.choice([-1, 1]), hi + 0.25 * (hi - lo) * r.choice([-1, 1])
         steps = r.choice([5, 9, 13, 17, 24, 33, 40])
+        if r.random() < 0.15 and hi > lo:          # a landscape on which no bar is visible: the zero function, one zero row
+            dgms[r.randrange(3)] = short_bars(ctx, lo, hi, steps)
         As = [mk_grid(d, lo, hi, steps) for d in dgms]
-        if not all(grid_ok(A) for A in As):
-            ctx.count("grid:empty_values_skipped")
+        bad = None
+        for d, A in zip(dgms, As):
+            if not grid_ok(A):                     # nothing is skipped: non-numeric values are a failing input
+                bad = bad or (d, A)
+            elif not np.asarray(A.values).any():
+                ctx.count("grid:zero_landscape(no visible bar)")
+                z = zero_function_check(A)
+                ctx.test("zero_grid_landscape_has_zero_norms", z is None)
+                if z is not None:
+                    bad = bad or (d, A)
+        if bad is not None:
+            d, A = bad
+            z = zero_function_check(A)
+            ctx.violation("the grid landscape of %r on [%r, %r] x %d (no bar visible; values = %r) does not behave as the zero "
+                          "function: %s" % (d, lo, hi, steps, np.asarray(A.values).tolist()[:2], z),
+                          {"kind": "zero_grid", "dgm": d, "start": lo, "stop": hi, "steps": steps}, found_input=True)
+            if len(ctx.violations) > 5:
+                return
             continue
         kind, cs, A = combine(ctx, As)
         ctx.count("grid:" + kind)
@@ -449,8 +527,8 @@ def run(ctx):
     for i in range(ctx.n(200, 3000)):
         cps = gen_synthetic(ctx)
         p = r.choice([-2.0, -1.5, -1.0000001, -0.5, -1e-9, 0.0, 0.5, 0.999, -3.0, 0.25])
-        if r.random() < 0.25:                      # a vertical segment (Python floats: ZeroDivisionError)
-            l = cps[0]
+        if r.random() < 0.25 and any(len(l) >= 2 for l in cps):   # a vertical segment (Python floats: ZeroDivisionError)
+            l = [l for l in cps if len(l) >= 2][0]
             j = r.randrange(len(l) - 1)
             l[j + 1][0] = l[j][0]
             l[j + 1][1] = l[j][1] + 1.0
@@ -547,7 +625,9 @@ def eval_laws(case, ctx=None):
         hi = max(b[1] for d in dg for b in d)
         Ls = [mk_grid(d, lo, hi, case["steps"]) for d in dg]
         if not all(grid_ok(A) for A in Ls):
-            return None
+            # non-numeric values (the former placeholder ['empty']): every law below would raise
+            return {"grid_values_numeric": False, "_why": [zero_function_check(A) for A in Ls if not grid_ok(A)][:1]}
+        res["grid_values_numeric"] = True
         step = (hi - lo) / (case["steps"] - 1)
         fired = False
     else:
@@ -591,17 +671,18 @@ def eval_laws(case, ctx=None):
     res["triangle"] = nAB <= (nA + nB) * (1 + TOL) + eAB + eA + eB and sAB <= (sA + sB) * (1 + TOL) and \
         nG <= (1.5 * nP[0] + 2.0 * nP[1] + 0.5 * nP[2]) * (1 + TOL) + eG + 1.5 * eP[0] + 2.0 * eP[1] + 0.5 * eP[2]
     res["difference_symmetric"] = rel_close(nBA, nA, extra=eA + eBA)
-    if fired:
-        res["stability"] = None            # C03 known finding: the landscape itself is not the k-th largest tent
-    else:
-        import warnings
-        with warnings.catch_warnings():
-            warnings.simplefilter("ignore")
-            d12 = float(bn(np.array(dg[0], dtype=float), np.array(dg[1], dtype=float)))
-        scale = max(abs(x) for d in dg for b in d for x in b) or 1.0
-        res["stability"] = sA <= d12 + step * (1 + 1e-9) + 1e-9 * scale
-        res["_bn"] = d12
-        res["_sup"] = sA
+    # the stability clause is evaluated on every case; where it fails AND the C03 repeated-bar shortcut fired while the
+    # landscapes were built, the caller attributes the failure to the known finding (the landscape itself is then not
+    # the k-th largest tent) instead of reporting it
+    import warnings
+    with warnings.catch_warnings():
+        warnings.simplefilter("ignore")
+        d12 = float(bn(np.array(dg[0], dtype=float), np.array(dg[1], dtype=float)))
+    scale = max(abs(x) for d in dg for b in d for x in b) or 1.0
+    res["stability"] = sA <= d12 + step * (1 + 1e-9) + 1e-9 * scale
+    res["_bn"] = d12
+    res["_sup"] = sA
+    res["_fired"] = bool(fired)
     return res
 
 
@@ -617,8 +698,132 @@ def perturb_dgm(r, d, scale, delta):
     return out or [[0.0, delta * scale + 1e-6 * scale]]
 
 
+# ----------------------------------------------------------------------------- known findings
+KNOWN_STAB_KEY = "repeated-bar-shortcut"
+KNOWN_STAB_SITE = "site=persim/landscapes/exact.py:repeated-bar-shortcut"
+KNOWN_STAB_CASE = {"kind": "law", "dgms": [[[1.0, 5.0], [1.0, 5.0], [3.0, 6.0]], [[1.0, 5.0], [1.0, 5.0001], [3.0, 6.0]],
+                                           [[1.0, 5.0], [3.0, 6.0]]], "p": 2, "c": 2.0, "grid": False, "steps": 9, "perturb": True}
+KNOWN_OVF_KEY = "_p_norm-overflow-large-p"
+KNOWN_OVF_SITE = "site=persim/landscapes/auxiliary.py:_p_norm-overflow-large-p"
+KNOWN_OVF_CASES = [{"kind": "bigp", "dgm": [[0.0, 2.0 ** 21]], "p": 60}, {"kind": "bigp", "dgm": [[0.0, 2.0 ** -19]], "p": 60}]
+BIGP_EXP = 900.0     # |p*log2(max|value|) + log2(width)| beyond which M**p leaves the double range ("about 1000")
+
+
+def listed(site):
+    return [t for k, t in common.known_findings("C10") if k == "known" and site in t]
+
+
+def known_stab_text(kf):
+    return (KNOWN_STAB_SITE + " still fails (stability clause): D=[(1,5),(1,5),(3,6)], D'=[(1,5),(1,5.0001),(3,6)] gives "
+            "sup|L(D)-L(D')| = 0.9999 against bottleneck 1e-4 (the C03 repeated-bar shortcut, seen through C10); listed in "
+            "known_findings.txt" + ("" if kf else " [NOT LISTED]"))
+
+
+def known_ovf_text(kf):
+    return (KNOWN_OVF_SITE + " still fails: PersLandscapeExact([[0,2**21]]).p_norm(60) = inf and PersLandscapeExact([[0,2**-19]])"
+            ".p_norm(60) = 0.0 although the norm is a finite positive number (M**p is formed in double precision before the "
+            "root); listed in known_findings.txt" + ("" if kf else " [NOT LISTED]"))
+
+
+def bigp_eval(case):
+    """p_norm of the exact landscape of one diagram for a large exponent, against the same norm computed on the landscape
+    rescaled to unit height and unit width (homogeneity: ||f|| = M * X**(1/p) * ||f(X .)/M||, the rescaled call is far from
+    over/underflow).  -> dict(ok, value, expected, exponent)"""
+    ex, ap, aux = _mods()
+    L = mk_exact(case["dgm"]) if "dgm" in case else None
+    if "other" in case:
+        L = L - mk_exact(case["other"])
+    cps = cps_of(L)
+    p = case["p"]
+    M = max([abs(q[1]) for l in cps for q in l] + [0.0])
+    xs = [q[0] for l in cps for q in l]
+    X = (max(xs) - min(xs)) if xs else 0.0
+    v = fl(quiet(L.p_norm, p))
+    if M == 0.0 or X == 0.0:
+        return {"ok": v == 0.0, "value": v, "expected": 0.0, "exponent": 0.0}
+    # rescale by powers of two (exact: no abscissae or ordinates are merged or rounded)
+    M2, X2 = 2.0 ** round(math.log2(M)), 2.0 ** round(math.log2(X))
+    unit = [[[q[0] / X2, q[1] / M2] for q in l] for l in cps]
+    u = fl(quiet(aux._p_norm, p, unit))
+    want = M2 * X2 ** (1.0 / p) * u
+    expo = p * math.log2(M) + math.log2(X)
+    ok = math.isfinite(v) and v > 0.0 and math.isfinite(want) and abs(v - want) <= 1e-6 * want
+    return {"ok": ok, "value": v, "expected": want, "exponent": expo}
+
+
+def known_replays(ctx):
+    """replay the listed inputs of both known findings; print one KNOWN-FINDING line per entry while it still fails"""
+    kf_ovf, kf_stab = listed(KNOWN_OVF_SITE), listed(KNOWN_STAB_SITE)
+    still = []
+    for c in KNOWN_OVF_CASES:
+        res = bigp_eval(c)
+        still.append(not res["ok"])
+        if not res["ok"] and abs(res["exponent"]) <= BIGP_EXP:
+            ctx.violation("p_norm(%r) of %r = %r (expected %r) fails far from the double range" % (c["p"], c["dgm"], res["value"], res["expected"]),
+                          c, found_input=True)
+    ctx.extra["known_finding_overflow_still_fails"] = still
+    if any(still):
+        if kf_ovf:
+            ctx.known(KNOWN_OVF_KEY, known_ovf_text(True))
+        else:
+            ctx.violation("p_norm over/underflows for large p and this is not listed in known_findings.txt", KNOWN_OVF_CASES[0], found_input=True)
+    else:
+        print("note: the listed known finding of C10 (_p_norm overflow for large p) no longer reproduces on this tree", flush=True)
+    res = eval_laws(KNOWN_STAB_CASE)
+    fails = res.get("stability") is False
+    ctx.extra["known_finding_stability_still_fails"] = fails
+    ctx.extra["known_finding_stability_shortcut_fired"] = bool(res.get("_fired"))
+    if fails and res.get("_fired"):
+        if kf_stab:
+            ctx.known(KNOWN_STAB_KEY, known_stab_text(True))
+        else:
+            ctx.violation("the stability clause fails where the repeated-bar shortcut fires and this is not listed in known_findings.txt",
+                          KNOWN_STAB_CASE, law=True, failed=["stability"])
+    elif fails:
+        ctx.violation("the listed stability pair fails and the shortcut trace did not fire: sup %r > bottleneck %r"
+                      % (res.get("_sup"), res.get("_bn")), KNOWN_STAB_CASE, law=True, failed=["stability"])
+    else:
+        print("note: the listed known finding of C10 (stability where the C03 shortcut fires) no longer reproduces on this tree", flush=True)
+    return kf_ovf, kf_stab
+
+
+def stream_bigp(ctx, kf_ovf):
+    """[T] large exponents (integer and real p up to 100) on landscapes at scales 2^-21 .. 2^21: the norm must be finite,
+    non-zero and equal to the rescaled computation.  Failures with |p*log2(max|value|) + log2(width)| > BIGP_EXP are the known
+    over/underflow finding (counted); failures nearer to 1 are violations."""
+    r = ctx.rng
+    attributed = 0
+    for i in range(ctx.n(500, 6000)):
+        mode = r.choice(["lattice", "half", "eighth", "dec", "unif"])
+        k = r.choice([-21, -20, -12, -8, -3, 0, 0, 0, 3, 8, 12, 20, 21])
+        scale = 2.0 ** k
+        p = r.choice([r.randint(21, 100), r.randint(1, 100), round(r.uniform(20, 100), 2), float(r.choice([30, 60, 100]))])
+        c = {"kind": "bigp", "dgm": gen_dgm(ctx, mode, scale), "p": p}
+        if r.random() < 0.4:
+            c["other"] = gen_dgm(ctx, mode, scale)
+        res = bigp_eval(c)
+        far = abs(res["exponent"]) > BIGP_EXP
+        ctx.case(c, True, sample_every=97)
+        ctx.count("bigp:scale:2^%d" % k)
+        ctx.count("bigp:%s" % ("beyond_double_range" if far else "within_double_range"))
+        if not res["ok"] and far and kf_ovf:
+            attributed += 1
+            ctx.known(KNOWN_OVF_KEY, known_ovf_text(True))
+            continue
+        ctx.test("large_p_finite_nonzero_accurate", res["ok"])
+        if not res["ok"]:
+            ctx.violation("p_norm(p=%r) = %r but the norm is %r (rescaled computation; p*log2(max|value|)+log2(width) = %.0f)"
+                          % (p, res["value"], res["expected"], res["exponent"]), c, found_input=True)
+            if len(ctx.violations) > 5:
+                break
+    ctx.extra["bigp_failures_attributed_to_known_overflow"] = attributed
+
+
 def laws(ctx):
     r = ctx.rng
+    kf_ovf, kf_stab = known_replays(ctx)
+    if len(ctx.violations) <= 5:
+        stream_bigp(ctx, kf_ovf)
     for i in range(ctx.n(800, 18000)):
         mode, scale, dgms = gen_family(ctx, 3)
         perturb = r.random() < 0.6
@@ -629,20 +834,29 @@ def laws(ctx):
             p = int(p) if float(p).is_integer() else p
         c = r.choice([-1.0, 2.0, -0.5, 3.0, 1024.0, -1.0 / 3.0, round(r.uniform(-5, 5), 2) or 1.0])
         use_grid = r.random() < 0.35
-        case = law_case(dgms, p, c, use_grid, r.choice([9, 17, 33, 40]), perturb)
+        steps = r.choice([9, 17, 33, 40])
+        if use_grid and r.random() < 0.15:
+            lo = min(b[0] for d in dgms[:2] for b in d)
+            hi = max(b[1] for d in dgms[:2] for b in d)
+            if hi > lo:
+                # bars shorter than a step, inside the range of the other two diagrams (the family's grid stays [lo, hi])
+                dgms[2] = short_bars(ctx, lo, hi, steps)
+                ctx.count("laws:grid_with_zero_landscape")
+        case = law_case(dgms, p, c, use_grid, steps, perturb)
         res = eval_laws(case)
-        if res is None:
-            ctx.count("laws:grid_empty_skipped")
-            continue
         ctx.count("laws:" + ("grid" if use_grid else "exact"))
         if res.get("_ill"):
             ctx.count("laws:ill_conditioned")
         failed = []
+        if res.get("_fired"):
+            ctx.count("laws:stability_cases_with_c03_shortcut_fired")
         for k, ok in res.items():
             if k.startswith("_"):
                 continue
-            if ok is None:
-                ctx.count("laws:stability_skipped_c03_shortcut")
+            if k == "stability" and not ok and res.get("_fired") and kf_stab:
+                # the known finding seen through C10: counted, not reported
+                ctx.count("laws:stability_failures_attributed_to_c03_shortcut")
+                ctx.known(KNOWN_STAB_KEY, known_stab_text(True))
                 continue
             ctx.test(k, ok)
             if not ok:
@@ -697,6 +911,15 @@ def replay(ctx, rep):
         v, o = fl(L.sup_norm()), oracle_sup(c["cps"])
         print("sup_norm = %r, largest |value| = %r" % (v, o))
         return v == o
+    if kind == "zero_grid":
+        A = mk_grid(c["dgm"], c["start"], c["stop"], c["steps"])
+        z = zero_function_check(A)
+        print("values:", np.asarray(A.values).tolist()[:2], "->", z or "behaves as the zero function")
+        return z is None
+    if kind == "bigp":
+        res = bigp_eval(c)
+        print("p_norm(%r) = %r, rescaled computation %r, p*log2(max|value|)+log2(width) = %.0f" % (c["p"], res["value"], res["expected"], res["exponent"]))
+        return res["ok"]
     if kind == "law":
         res = eval_laws(c)
         print("laws:", res)
@@ -708,7 +931,9 @@ def replay(ctx, rep):
 
 
 MANIFEST = {
-    "text": "Proof for natural and real p >= 1: Lean theorems about the model of _p_norm / p_norm / sup_norm at the reals. Each "
+    "text": "Proof for natural and real p >= 1: 48 Lean theorems in Props/C10.lean, of which 26 core (the rest: closed forms of single "
+            "branches, helpers, bridges between guards, argument validation, regression witnesses; the generated source-translation "
+            "file adds its own obligations) about the model of _p_norm / p_norm / sup_norm at the reals. Each "
             "segment term of the model (flat, sign-crossing, one-signed of either sign in the cancellation-free form of fix "
             "b342827, with the code's own -expm1((p+1) log r) for real p) equals the interval integral of |line|^p; the "
             "accumulated value equals the sum over depths of the integral of |evalPL|^p over the support and over the real "
@@ -719,17 +944,28 @@ MANIFEST = {
             "represents f + g; base.py rejects exactly p < -1 and -1 < p < 0; the pre-fix formula is refuted by norm_num on "
             "[(0,0),(1,1),(3,-1),(4,0)] (2/3 instead of 4/3). Stability is proved for the mathematical landscape: a partial "
             "matching of cost <= eps gives |lambda_k(t) - lambda'_k(t)| <= eps for all k, t, hence sup-norm distance <= "
-            "bottleneck distance. The model is tied to the code on every run at Rat (exact p-th power, natural p in 1..20, 1e-9 "
-            "relative) and at Float (real p) on exact and grid landscapes, their differences and linear combinations and on "
-            "synthetic functions with forced zeros, equal and nearly equal neighbours.",
+            "bottleneck distance. Guards: the statements are proved for strictly increasing abscissae and again (`..._wf`) for the "
+            "class C09's operations produce and preserve (wfDepth: zero end ordinates, a zero-width step only between two copies of "
+            "one point) - this includes the depth [[b,0],[b,0],[b,0]] of a zero-length bar and the single point [(x,0)], where a "
+            "zero-width flat segment contributes 0 and the sup norm needs no '2 <= length' hypothesis. "
+            "The model is tied to the code on every run at Rat (exact p-th power, natural p in 1..20, 1e-9 "
+            "relative) and at Float (real p in [1,20]) on exact and grid landscapes (incl. grid landscapes on which no bar is visible: "
+            "one zero row, all norms 0), their differences and linear combinations and on synthetic functions with forced zeros, "
+            "equal and nearly equal neighbours, repeated points and single-point depths. Tested exponent range: the correspondence "
+            "uses p <= 20; a separate [T] stream uses integer and real p up to 100 at scales 2^-21..2^21 and requires a finite, "
+            "non-zero value equal to the rescaled computation. Two known findings are replayed on every run (KNOWN-FINDING lines "
+            "while they fail): (a) M**p is formed in double precision before the root, so p_norm is inf / 0.0 once "
+            "|p*log2(max|value|) + log2(width)| exceeds about 1000 (failures beyond 900 are attributed to it, nearer ones are "
+            "VIOLATIONs); (b) the stability clause fails where the C03 repeated-bar shortcut fires (every stability case is "
+            "evaluated; a failure is attributed only when the guarded trace says the shortcut fired while the landscapes were built).",
     "note": "Theorems are exact-arithmetic (reals). [T] only: behaviour under float rounding — finiteness, accuracy and the laws "
             "on the real code (law stream + quadrature oracle; this is what exposed the near-flat cancellation repaired by "
             "b342827); the Float model's expm1 is Kahan's exp/log formula (core Lean has no expm1), np.expm1/np.log/C pow are "
             "trusted to agree with it to 1e-9. The stability theorem is about PL.landscape; its transfer to the code's sweep "
-            "rests on C03/C09 and is additionally tested against persim.bottleneck (cases where the C03 repeated-bar shortcut "
-            "fires are skipped and counted). Grid landscapes: np.linspace is passed to the model as data (strictly increasing "
+            "rests on C03/C09 and is additionally tested against persim.bottleneck on every case (failures where the C03 repeated-bar "
+            "shortcut fired are the known finding: counted and reported as KNOWN-FINDING, not skipped). Grid landscapes: np.linspace is passed to the model as data (strictly increasing "
             "grid is C08's contract). Trusted: Lean kernel + Mathlib, axioms propext/Classical.choice/Quot.sound; the "
-            "correspondence harness. Observation outside the property (p >= 1): p_norm(-1) returns NaN instead of the sup norm, "
+            "correspondence harness and the compiled driver executable (compiled by Lean's compiler, not checked by the kernel). Observation outside the property (p >= 1): p_norm(-1) returns NaN instead of the sup norm, "
             "because both subclasses discard the value of super().p_norm — modelled as is (pNormMethod).",
     "technique": "Lean 4 theorems (Mathlib interval/Bochner integrals, rpow, Minkowski) over a hand-written model + differential correspondence at Rat/Float + quadrature oracle",
 }
